@@ -7,6 +7,7 @@ from ..idx import index
 from ..px import OK, PX, RAISE, Outcomes
 from ..pxv import Obj, Sym
 from ..te import Member, TypeRef
+from .util import anchor_attrs
 from .util import same_class, self_obj
 
 MC = "bellows.multicast"
@@ -44,6 +45,7 @@ def r15_1(ctx):
     exit, either recorded for the group (write accepted; the recorded index is the one written to the NCP and the
     entry carries the group and a non-zero endpoint) or back in the free set - never both, never neither; the
     returned status is OK exactly when the write was accepted."""
+    anchor_attrs(ctx, "Multicast", "_multicast", "_available", "_ezsp")
     repo = ctx.repo
     f = repo.func(f"{MC}:Multicast.subscribe")
     ctx.fn(f)
